@@ -135,7 +135,7 @@ def check_upper(case):
         with Trace(pv2, cap=60000, keep=True) as trb:
             j2 = call(pv2.calculate_partial_fluxes, composition=comp2, **kw)
         e1, e2 = list(tra.per_call), list(trb.per_call)
-        if e1 != e2 and not legit_exit_flip(tra.evals, trb.evals, prec, complement=True):
+        if not is_raised(j) and not is_raised(j2) and e1 != e2 and not legit_exit_flip(tra.evals, trb.evals, prec, complement=True):
             raise Violation("the flux iteration stopped after %r evaluations for the original and %r for the relabelled mixture although the "
                             "step size was not at a rounding tie with the precision %r: the stopping decision depends on the labelling"
                             % (e1, e2, prec))
